@@ -282,3 +282,31 @@ package gorp
 //@   # interference (*SpecApplied == old + 1, *SpecFlushed unchanged) it is provable.
 //@   assert_before "t.state.runCleanups(err == nil)" err == nil ==> *SpecFlushed < *SpecMine
 //@   modifies SpecApplied, SpecMine, SpecFlushed
+
+//@ # ---- lock discipline of the indexes (C17 over schedules): the committed index state is read and
+//@ # written under the index mutex, the per-transaction overlay under its own; helpers named
+//@ # *Locked / put / remove / get / bounds are called with the mutex held by their caller.
+//@ guarded_by LookupIndex.forward mu
+//@ guarded_by LookupIndex.reverse mu
+//@ guarded_by SortedIndex.entries mu
+//@ guarded_by SortedIndex.reverse mu
+//@ guarded_by deltaOverlay.txDeltas deltaMu
+//@ guarded_by txState.cleanups mu
+//@ requires_held LookupIndex.putLocked mu W
+//@ requires_held LookupIndex.deleteLocked mu W
+//@ requires_held LookupIndex.removeFromForward mu W
+//@ requires_held LookupIndex.getLocked mu R
+//@ requires_held SortedIndex.lowerBound mu R
+//@ requires_held SortedIndex.upperBound mu R
+//@ requires_held SortedIndex.put mu W
+//@ requires_held SortedIndex.remove mu W
+//@ requires_held SortedIndex.get mu R
+//@ requires_held SortedIndex.sortBulk mu W
+//@ requires_held SortedIndex.setCommitted mu W
+//@ requires_held SortedIndex.deleteCommitted mu W
+//@ unshared NewLookupIndex the index is built before it is published
+//@ unshared NewSortedIndex the index is built before it is published
+//@ # populate takes the index mutex and hands its release to the `finish` closure it returns: the
+//@ # index stays locked for the whole bulk load (OpenTable always runs finish, in runPopulate's defer)
+//@ returns_held LookupIndex.populate mu W
+//@ returns_held SortedIndex.populate mu W
